@@ -73,3 +73,26 @@ def known_constraint_type(ex, st, ct):
     t = box(ct, st)
     names = ["is_instance", "is_value", "is_value_object", "is_truthy", "predicate", "add_annotation", "one_of", "all_of"]
     return S_bool(z3.Or(*[t == CONSTS.get("enum", f"ConstraintType.{n}") for n in names]))
+
+
+exact_f = z3.Function("exact_inst", O, V, BoolS)   # type(o) is C
+
+
+@spec_function()
+def exact_inst(ex, st, o, cls):
+    return S_bool(exact_f(o.t, box(cls, st)))
+
+
+def truth_axioms(used):
+    """Python's data model for bool(): an object whose *own class* defines neither __len__ nor __bool__ is true"""
+    o = z3.Const("to2", O)
+    c = z3.Const("tc2", V)
+    has = uf("fn:pyanalyze.safe.safe_hasattr", V, V, V)
+    get3 = uf("fn:pyanalyze.safe.safe_getattr", V, V, V, V)
+    ln, bl = CONSTS.get("str", "__len__"), CONSTS.get("str", "__bool__")
+    from pyvc.core import truthy
+    return [z3.ForAll([o, c], z3.Implies(z3.And(exact_f(o, c), z3.Not(truthy(has(c, ln))), get3(c, bl, NONE) == NONE), truth_f(o)), patterns=[exact_f(o, c)]),
+            z3.ForAll([o, c], z3.Implies(exact_f(o, c), inst_f(o, c)), patterns=[exact_f(o, c)])]
+
+
+REG.axiom_hooks.append(truth_axioms)
